@@ -13,6 +13,7 @@
 #include <eventpp/utilities/scopedremover.h>
 #include <eventpp/utilities/counterremover.h>
 #include <eventpp/utilities/conditionalremover.h>
+#include <eventpp/utilities/anydata.h>
 #include <cstdio>
 #include <cstdlib>
 #include <iostream>
@@ -82,6 +83,9 @@ struct QPol { using Mixins = eventpp::MixinList<eventpp::MixinFilter>; };
 using Queue = eventpp::EventQueue<int, void(const Payload &), QPol>;
 using HCL = eventpp::HeterCallbackList<eventpp::HeterTuple<void(int), void(const Payload &)>>;
 using HQ = eventpp::HeterEventQueue<int, eventpp::HeterTuple<void(const Payload &), void(int)>>;
+// the documented use of AnyData: the queue stores an AnyData built from whatever is enqueued (here a Payload, held inline)
+using AD = eventpp::AnyData<32>;
+using AQ = eventpp::EventQueue<int, void(const AD &)>;
 
 struct Rng { unsigned long long s; unsigned next() { s = s * 6364136223846793005ULL + 1442695040888963407ULL; return (unsigned)(s >> 33); } };
 
@@ -92,6 +96,7 @@ struct World {
 	Queue q;
 	HCL hl, hother;
 	HQ hq;
+	AQ aq;
 	std::unique_ptr<eventpp::ScopedRemover<CL>> rem;
 	std::vector<std::string> trace;
 
@@ -129,6 +134,13 @@ struct World {
 			int nh = r.next() % 4;
 			for(int i = 0; i < nh; ++i) { if(r.next() % 2) hq.enqueue(1, Payload(40 + i)); else hq.enqueue(1, 80 + i); }
 			if(nh > 1 && r.next() % 2) hq.processOne();
+		}
+		// AnyData queue: a listener, pending events, maybe a recycled slot
+		aq.appendListener(1, [](const AD & d) { point(K_CBCALL); if(g_trace) g_trace->push_back("acall " + std::to_string(d.get<Payload>().v)); });
+		{
+			int na = r.next() % 3;
+			for(int i = 0; i < na; ++i) aq.enqueue(1, Payload(60 + i));
+			if(na > 1 && r.next() % 2) aq.processOne();
 		}
 	}
 
@@ -173,6 +185,18 @@ struct World {
 			hs += std::string(" | hec=") + std::to_string((int)hq.queueEmptyCounter.load()) + " hempty=" + (hq.emptyQueue() ? "1" : "0") + (hfreeBad ? " HFREE-SLOT-OCCUPIED" : "");
 			s += hs;
 		}
+		{
+			std::string as = " | apending:";
+			for(auto it = aq.queueList.begin(); it != aq.queueList.end(); ++it) {
+				if(it->empty()) { as += " <empty-slot>"; continue; }
+				const AD & d = std::get<0>(it->get().arguments);
+				as += d.isType<Payload>() ? " " + std::to_string(d.get<Payload>().v) : " NOT-A-PAYLOAD";
+			}
+			bool afreeBad = false;
+			for(auto it = aq.freeList.begin(); it != aq.freeList.end(); ++it) if(!it->empty()) afreeBad = true;
+			as += std::string(" | aec=") + std::to_string((int)aq.queueEmptyCounter.load()) + " aempty=" + (aq.emptyQueue() ? "1" : "0") + (afreeBad ? " AFREE-SLOT-OCCUPIED" : "");
+			s += as;
+		}
 		s += " | HL=" + std::to_string(hn) + hids + " | remItems=" + std::to_string(rem ? rem->itemList.size() : 0);
 		return s;
 	}
@@ -193,6 +217,9 @@ struct World {
 			hq.enqueue(1, Payload(98));
 			s += std::string(" hprocess=") + (hq.process() ? "1" : "0");
 			s += std::string(" hempty=") + (hq.emptyQueue() ? "1" : "0");
+			aq.enqueue(1, Payload(97));
+			s += std::string(" aprocess=") + (aq.process() ? "1" : "0");
+			s += std::string(" aempty=") + (aq.emptyQueue() ? "1" : "0");
 		}
 		catch(...) { s += " FOLLOWUP-THREW"; }
 		g_trace = nullptr;
@@ -234,6 +261,10 @@ static std::vector<Op> catalogue() {
 		{ "hq.process", false, [](World & w) { g_trace = &w.trace; w.hq.process(); g_trace = nullptr; } },
 		{ "hq.processOne", false, [](World & w) { g_trace = &w.trace; w.hq.processOne(); g_trace = nullptr; } },
 		{ "hq.processIf", false, [](World & w) { g_trace = &w.trace; w.hq.processIf([](const Payload & p) { point(K_PRED); return p.v % 2 == 0; }); g_trace = nullptr; } },
+		{ "aq.enqueue", true, [](World & w) { Payload p(75); w.aq.enqueue(1, p); } },
+		{ "aq.enqueueTemp", true, [](World & w) { w.aq.enqueue(1, Payload(76)); } },
+		// (AnyData has no assignment: peekEvent / takeEvent do not exist for this queue)
+		{ "aq.process", false, [](World & w) { g_trace = &w.trace; w.aq.process(); g_trace = nullptr; } },
 		{ "hl.append", true, [](World & w) { Cb c(68); w.hl.append(c); } },
 		{ "hl.assign", true, [](World & w) { w.hl = w.hother; } },
 	};
